@@ -24,6 +24,7 @@ func c03Prop(c *sim.Case) {
 	if sim.Bool(c, "extra-scopes") {
 		o.Scopes = []string{"email", "profile"}
 	}
+	o.ViaGRPC = o.ViaServer && sim.Bool(c, "via-grpc-server") // through the service's own gRPC server and interceptors
 	if sim.Weighted(c, "session-timeouts", 2, 1) == 1 {
 		// limits far beyond the history: they must not get in the way of a login
 		o.Abs = []time.Duration{0, time.Hour, 24 * time.Hour}[sim.Pick(c, "abs", 3)]
